@@ -107,7 +107,9 @@ def run(F, rep):
             nn = nonnull_at(f, n_) or set()
             # struct fields that libxml2 guarantees non-NULL for the node kinds used: name of element/attribute nodes, href of namespace nodes
             fieldname = src.get('n') if src.get('k') == 'Member' else None
-            if fieldname in ('name', 'href'):
+            # struct fields that libxml2 guarantees non-NULL: the name of an attribute node and the href of a namespace node.  The name of a
+            # general node is NOT guaranteed (CDATA sections have none) - an earlier version of this rule assumed it was; see DESIGN.md 6.4.
+            if (fieldname == 'name' and 'Attribute' in t) or fieldname == 'href':
                 rep.ok('C01.X5', k, f.where(n_), 'libxml2 guarantees a non-NULL %s for this node kind' % fieldname)
                 continue
             rc5 = ff(f).rendered_conds_at(n_) or set()
@@ -312,7 +314,7 @@ def run(F, rep):
 
     # ------------------------------------------------------------------ N: nullable results
     import nullres
-    nullres.run(F, rep, 'C01.N1', kinds=('rootNode', 'importSource.model', 'units(name)', 'variable(name)', 'component(name)'))
+    nullres.run(F, rep, 'C01.N1', kinds=('rootNode', 'importSource.model', 'units(name)', 'variable(name)', 'component(name)', 'ast.parent'))
 
     # ------------------------------------------------------------------ V: what the validator checks is what the later stages use
     rep.rule('C01.V1', 'the text of a <ci>/<cn> token is obtained through the comment-skipping accessors (nonCommentChildNode/-Count, mathmlChild*) both where the validator checks the variable name and where the analyser builds its AST: '
@@ -361,6 +363,41 @@ def run(F, rep):
                       '%s decides with %s whether an initial value is a number, and looks the text up as a variable name otherwise; the validator guarantees that variable only for text that is not a CellML real (isCellMLReal)' % (g.short, names), 'isCellMLReal')
     if n_v2 < 1:
         raise AnalysisBroken('C01.V2: no number-or-reference decision on an initial value found (generateDoubleOrConstantVariableNameCode confirmed)')
+
+    rep.rule('C01.N3', 'contradiction rule: a local pointer that the function itself compares with nullptr somewhere (so it can be null there) is dereferenced only where a non-null fact holds; '
+                       'locals that are reassigned after their initialisation are not tracked')
+    N3_EXEMPT = {
+        'Analyser::AnalyserImpl::analyseEquationAst|astParent': 'runs after the error gate of analyseModel: every equation root is EQUALITY, and the CI/CN nodes whose parent is read here are never roots (same invariant as C01.N1 ast.parent)',
+        'Analyser::AnalyserImpl::analyseEquationAst|astGrandparent': 'read only for a CN under DEGREE (parent type tested first); DEGREE nodes are children of BVAR/ROOT nodes, never roots behind the error gate',
+        'mathmlChildNode|res': 'every caller asks for a child index below mathmlChildCount(node) (the validator checks the child counts of every MathML element before the analyser runs), so the first child exists',
+    }
+    n_n3 = 0
+    for g in sorted(F.funcs.values(), key=lambda f_: (f_.file, f_.line)):
+        tested = {}
+        for n_ in g.walk():
+            nt = null_test(n_) if n_.get('k') in ('Call', 'Bin', 'Un') else None
+            if nt and nt[0].get('k') == 'Ref' and nt[0].get('dk') == 'local':
+                tested[nt[0]['d']] = nt[0]['n']
+        if not tested:
+            continue
+        reass = {x['c'][0]['d'] for x in g.walk() if ((x.get('k') == 'Call' and x.get('opc') == '=') or (x.get('k') == 'Bin' and x.get('op') == '=')) and x.get('c') and x['c'][0].get('k') == 'Ref' and x['c'][0].get('d') in tested}
+        bad = {}
+        for n_ in g.walk():
+            if n_.get('k') == 'Call' and n_.get('opc') in ('->', '*') and n_['c'][0].get('k') == 'Ref' and n_['c'][0].get('d') in tested and n_['c'][0]['d'] not in reass and g.enclosing_lambda(n_) is None:
+                n_n3 += 1
+                nn = nonnull_at(g, n_)
+                if nn is None or n_['c'][0]['n'] in nn:
+                    continue
+                bad.setdefault(n_['c'][0]['n'], n_)
+        for nm, n_ in sorted(bad.items()):
+            key = '%s|%s' % (g.short, nm)
+            if key in N3_EXEMPT:
+                rep.exempt('C01.N3', key, N3_EXEMPT[key])
+            else:
+                rep.fail('C01.N3', key, g.where(n_), '%s compares `%s` with nullptr elsewhere but dereferences it here (`%s`) on a path where nothing says it is non-null' % (g.short, nm, render(g.parent(n_) or n_)[:50]))
+    rep.ok('C01.N3', 'scan', None, '%d dereferences of null-tested locals examined' % n_n3)
+    if n_n3 < 80:
+        raise AnalysisBroken('C01.N3: only %d dereferences of null-tested, not reassigned locals (118 confirmed)' % n_n3)
 
     rep.rule('C01.N2', 'a model taken out of the importer\'s library (which the public API can fill with null models) is null-tested before fetchModel hands it to ImportSource::setModel and reports success; '
                        'resolveImports dereferences the model of every import source whose fetch succeeded')
